@@ -89,6 +89,16 @@ def run_scenario(sc, res, case, tap=False, extra_monitors=()):
     for k, v in sim.fates.counts.items():
         res.count("fate_" + k, v)
     res.count("stop_" + str(sim.stopped_reason))
+    if sim.resumed_with_ticket:
+        hs = [e for _t, e in sim.client.events if type(e).__name__ == "HandshakeCompleted"]
+        res.count("runs_resumed_ticket_offered")
+        if hs:
+            res.count("runs_0rtt_accepted" if hs[0].early_data_accepted else "runs_0rtt_rejected_by_server")
+    for k, v in sim.frontend.items():
+        if v:
+            res.count("frontend_" + k, v)
+    if getattr(dm, "exempt_no_connection", False):
+        res.count("obs_runs_exempt_retry_token_invalidated_by_rebinding")
     if sim.stopped_reason == "step-cap":
         res.inconclusive.append("step cap hit (seed %s)" % sc["seed"])
     fc = sim.fates.counts
